@@ -9,6 +9,7 @@ Record mcase : Type := {
   c_sub : list (nat * nat);                 (* (c, d): issubclass(c, d), reflexive pairs included *)
   c_fields : list (nat * nat * bool * nat); (* owner class, attribute, is_iterable, type endpoint *)
   c_objcls : list nat;                      (* classes of world objects (the others are int / str) *)
+  c_rootsel : bool;                         (* entity_selection (root reported) or entity_matching *)
   c_T : nat;
   c_pat : alist;
   c_dom : list Z }.
@@ -22,3 +23,6 @@ Definition case_world (c : mcase) : mworld :=
 Definition zset (l : list Z) : sx := SL (sx_set (map SZ l)).
 Definition spec_out (c : mcase) : sx :=
   zset (spec_run (pair_mem (c_sub c)) (case_world c) (c_T c) (c_pat c) (c_dom c)).
+Definition rows_set (rows : list (list val)) : sx := SL (sx_set (map (fun r => SL (map show_val r)) rows)).
+Definition spec_rows_out (c : mcase) : sx :=
+  rows_set (spec_rows (pair_mem (c_sub c)) (case_world c) (c_rootsel c) (c_T c) (c_pat c) (c_dom c)).
